@@ -1,3 +1,109 @@
 package main
 
-func ruleG4(c *Ctx, id string) {}
+import (
+	"fmt"
+	"go/types"
+	"sort"
+	"strings"
+)
+
+// handleLeaves: field paths of type Nfs_fh3 inside the request type.
+func handleLeaves(t types.Type, prefix string, d int) []string {
+	if d > 4 {
+		return nil
+	}
+	if n, ok := types.Unalias(t).(*types.Named); ok && n.Obj().Name() == "Nfs_fh3" {
+		return []string{prefix}
+	}
+	st, ok := t.Underlying().(*types.Struct)
+	if !ok {
+		return nil
+	}
+	var out []string
+	for i := 0; i < st.NumFields(); i++ {
+		p := st.Field(i).Name()
+		if prefix != "" {
+			p = prefix + "." + p
+		}
+		out = append(out, handleLeaves(st.Field(i).Type(), p, d+1)...)
+	}
+	return out
+}
+
+func ruleG4(c *Ctx, id string) {
+	R, P := c.R, c.P
+	R.Rule(id, "every handle argument of every procedure is checked: on every path to a success status each Nfs_fh3 leaf of the request has been passed to GetInodeFh, or its decoded generation has been compared with the generation of the inode acquired by number", 23)
+	t := c.tsPreamble(id)
+	leaves := map[string][]string{}
+	pos := map[string]string{}
+	for _, h := range c.V.NfsProcs {
+		for _, p := range h.Params {
+			if p.Name() == "args" {
+				leaves[h.Name()] = handleLeaves(p.Type(), "", 0)
+			}
+		}
+		pos[h.Name()] = P.Pos(h.Pos())
+	}
+	type agg struct {
+		bad bool
+		n   int
+	}
+	res := map[string]*agg{}
+	for h, ls := range leaves {
+		for _, l := range ls {
+			res[h+"|handle "+l] = &agg{}
+		}
+	}
+	for _, sn := range t.Snaps {
+		if !isProc(c, sn.Entry) {
+			continue
+		}
+		cls, _ := statusClass(sn)
+		if cls != "ok" {
+			continue
+		}
+		for _, l := range leaves[sn.Entry] {
+			a := res[sn.Entry+"|handle "+l]
+			a.n++
+			_, ok := sn.G.Cells["$fh:"+l]
+			if !ok {
+				// byte-equal to a handle that was checked on this path (fh.Equal true edge)
+				for k := range sn.G.Cells {
+					if strings.HasPrefix(k, "$fheq:") {
+						ab := strings.SplitN(strings.TrimPrefix(k, "$fheq:"), "=", 2)
+						if len(ab) == 2 {
+							other := ""
+							if ab[0] == l {
+								other = ab[1]
+							} else if ab[1] == l {
+								other = ab[0]
+							}
+							if other != "" {
+								if _, ok2 := sn.G.Cells["$fh:"+other]; ok2 {
+									ok = true
+								}
+							}
+						}
+					}
+				}
+			}
+			if !ok {
+				a.bad = true
+			}
+		}
+	}
+	var keys []string
+	for k := range res {
+		keys = append(keys, k)
+	}
+	sort.Strings(keys)
+	for _, k := range keys {
+		a := res[k]
+		h := k[:strings.Index(k, "|")]
+		if a.n == 0 {
+			R.Pass(id, k, pos[h], "no success path (procedure always fails)", "no success end state")
+			continue
+		}
+		R.Check(!a.bad, id, k+"|checked before success", pos[h], "the handle is validated (live inode, matching generation) on every path that reports success", fmt.Sprintf("checked on all %d success end states", a.n), "a success reply is possible although this handle was never validated: a stale handle (object removed, number reused) is accepted")
+	}
+}
